@@ -22,7 +22,8 @@ open DC.Check (St)
 
 /-- the calls covered inside a block -/
 def Op.inBlock : Op → Bool
-  | .set .. | .touch .. | .incr .. | .get .. | .contains .. | .pop .. | .delitem .. | .delete ..
+  | .set .. | .add .. | .touch .. | .incr .. | .get .. | .contains .. | .pop .. | .delitem .. | .delete ..
+  | .push .. | .pull .. | .peek .. | .peekitem ..
   | .iter .. | .iterkeys .. | .len | .stats .. | .observe .. => true
   | _ => false
 
@@ -49,6 +50,7 @@ theorem step_BI {x : Cache} (hd : 0 < x.depth) (op : Op) (hin : op.inBlock = tru
     BI (x.step op).1 := by
   cases op <;> simp only [Op.inBlock, Bool.false_eq_true] at hin <;> simp only [step]
   · exact set_BI hd h _ _ _ _ _ _ _
+  · exact add_BI hd h _ _ _ _ _ _ _
   · exact touch_BI hd h _ _ _ _
   · exact incr_BI hd h _ _ _ _ _
   · exact get_BI hd h _ _ _ _ _ _
@@ -56,6 +58,10 @@ theorem step_BI {x : Cache} (hd : 0 < x.depth) (op : Op) (hin : op.inBlock = tru
   · exact pop_BI hd h _ _ _ _ _
   · exact delitem_BI hd h _ _ _
   · exact delete_BI hd h _ _ _
+  · exact push_BI hd h _ _ _ _ _ _ _ _
+  · exact (pull_BG hd h _ _ _ _ _ _).bi
+  · exact (peek_BG hd h _ _ _ _ _ _).bi
+  · exact (peekitem_BG hd h _ _ _ _ _).bi
   · exact iter_BI h _ _
   · exact iterkeys_BI h _ _
   · exact len_BI h
@@ -67,6 +73,7 @@ theorem step_grow {x : Cache} (hd : 0 < x.depth) (op : Op) (hin : op.inBlock = t
     Grow x (x.step op).1 := by
   cases op <;> simp only [Op.inBlock, Bool.false_eq_true] at hin <;> simp only [step]
   · exact set_grow hd _ _ _ _ _ _ _
+  · exact add_grow hd _ _ _ _ _ _ _
   · exact touch_grow hd _ _ _ _
   · exact incr_grow hd _ _ _ _ _
   · exact get_grow hd _ _ _ _ _ _
@@ -74,6 +81,10 @@ theorem step_grow {x : Cache} (hd : 0 < x.depth) (op : Op) (hin : op.inBlock = t
   · exact pop_grow hd _ _ _ _ _
   · exact delitem_grow hd _ _ _
   · exact delete_grow hd _ _ _
+  · exact push_grow hd _ _ _ _ _ _ _ _
+  · exact pull_grow hd _ _ _ _ _ _
+  · exact peek_grow hd _ _ _ _ _ _
+  · exact peekitem_grow hd _ _ _ _ _
   · exact Grow.of_core (iter_core x _ _)
   · exact Grow.of_core (iterkeys_core x _ _)
   · exact Grow.of_core rfl
@@ -382,6 +393,29 @@ theorem exStBlocks_quiet :
     ⟨by decide +kernel, by decide +kernel, by decide +kernel, by decide +kernel, by decide +kernel,
      by decide +kernel, by decide +kernel, by decide +kernel, by decide +kernel, by decide +kernel⟩
   exact ⟨ho, run_check_quiet_blocks exCfg false exSegs exSegs_quiet _ ho, by decide +kernel⟩
+
+/-- `add` and `push` inside blocks: a committed block adds a new key (file), tries to add a key that
+is already there (the file written for it goes straight to cleanup and is removed at the commit)
+and pushes a file-sized value; an aborted block does the same again (everything rolled back) -/
+def exSegsAddPush : List Seg :=
+  [.call (.set exE6 0 (.str [97]) (.bytes [1, 2, 3]) none false .null),
+   .commit [.add exE6 1 (.str [98]) (.bytes [4, 5, 6]) none false .null,
+            .add exE6 1 (.str [97]) (.bytes [7, 7, 7, 7]) none false .null,
+            .push exE6 1 (.bytes [8, 8, 8]) none true none false .null],
+   .abort [.add exE6 2 (.str [99]) (.bytes [4, 5, 6]) none false .null,
+           .push exE6 2 (.bytes [9, 9]) none true none false .null] 1]
+
+theorem exSegsAddPush_quiet : QuietHist ({ cfg := exCfg } : Cache) exSegsAddPush := by
+  refine ⟨rfl, ⟨by decide, ?_⟩, ⟨by decide, by decide, ?_⟩, trivial⟩
+  · unfold NoLeak; decide +kernel
+  · unfold Registered; decide +kernel
+
+theorem exSegsAddPush_final :
+    (({ cfg := exCfg } : Cache).run (histOps exSegsAddPush)).rows.map crow =
+      [⟨1, 3, some 0⟩, ⟨2, 3, some 1⟩, ⟨3, 3, some 3⟩] ∧
+    (({ cfg := exCfg } : Cache).run (histOps exSegsAddPush)).files.map (·.1) = [0, 1, 3] ∧
+    Good (({ cfg := exCfg } : Cache).run (histOps exSegsAddPush)) :=
+  ⟨by decide +kernel, by decide +kernel, hist_good _ (good_init _ _) _ exSegsAddPush_quiet⟩
 
 /-! ### the full statement is false: two leaks -/
 
